@@ -109,11 +109,12 @@ class HierarchyFilter(Filter):
         if self.parent_changed:
             # ignore
             pass
-        elif np.all(self.manual):
-            # Do not do anything and remember the events we manually
-            # excluded in case the parent reinserts them.
-            pass
         else:
+            # Note that this is also done if nothing is excluded in
+            # `self.manual`: Hidden indices (events we manually excluded
+            # that are currently filtered out by the parent) are kept, in
+            # case the parent reinserts them, while events that the user
+            # included again are removed from `self._man_root_ids`.
             # indices from boolean array
             pbool = map_indices_child2root(
                 child=rtdc_ds,
